@@ -1,6 +1,7 @@
 import GdcVerif.Driver.Util
 import GdcVerif.Model.JpegLossless
 import GdcVerif.Model.JpegLosslessScan
+import GdcVerif.Model.OptimalHuffman
 /-!
   Driver ops of the JPEG Lossless / SV1 work package (kernel level).
     jll-pred p ra rb rc                      → ok v            Gen.Predictor
@@ -9,8 +10,9 @@ import GdcVerif.Model.JpegLosslessScan
     jll-ext cat hex                          → ok v | err      ReadBits(cat) over hex, then receiveLosslessDifference
     jll-huffbits v:n,v:n,…                   → ok hex          WriteBits*; Flush
     jll-readbits hex n,n,…  (0 = ReadBit)    → ok v,v,… | err  ReadBit / ReadBits sequence
-    jll-canon b1,…,b16 values(hex)           → ok sym:code:len,… | panic   Build + BuildHuffmanCodes
-    jll-hdec b1,…,b16 values(hex) hex k      → ok s,s,… | err | panic     Build + k × Decode
+    jll-build b1,…,b16 values(hex)           → ok | err        HuffmanTable.Build
+    jll-canon b1,…,b16 values(hex)           → ok sym:code:len,…   BuildHuffmanCodes
+    jll-hdec b1,…,b16 values(hex) hex k      → ok s,s,… | err   BuildStandardHuffmanTable + k × Decode
 -/
 namespace Drv.JpegLossless
 open Drv JLL
@@ -78,6 +80,14 @@ def step? : List String → Option String
     some <| match ints? [p, ra, rb, rc] with
     | some [p, ra, rb, rc] => s!"ok {Gen.JpegLossless.Predictor p ra rb rc}"
     | _ => "bad-op"
+  | ["jll-opt", fs] =>      -- jll-opt f0,…,f255 → ok b1,…,b16 values(hex) | err | panic   BuildOptimalHuffmanTable
+    some <| match natsCsv? fs with
+    | some fs =>
+      match JLL.Opt.buildOptimal fs with
+      | .ok (bits, vals) => "ok " ++ intsToStr bits ++ " " ++ bytesToHex vals
+      | .err => "err"
+      | .panic => "panic"
+    | none => "bad-op"
   | ["jll-ldiff", a, b] =>
     some <| match ints? [a, b] with
     | some [a, b] => s!"ok {Gen.JpegLossless.losslessDifference a b}"
@@ -110,31 +120,31 @@ def step? : List String → Option String
       | some vs => "ok " ++ natsToStr vs
       | none => "err"
     | none => "bad-op"
-  | ["jll-canon", bits, vals] =>
+  | ["jll-build", bits, vals] =>        -- HuffmanTable.Build: ok | err
     some <| match natsCsv? bits with
     | some bits =>
-      let values := (hexToBytes vals).toArray
-      match Table.build bits values with
-      | .ok _ =>
-        let cs := buildHuffmanCodes bits values
-        let ent := (List.range 256).filterMap fun s =>
-          match cs[s]? with
-          | some (c, l) => if l > 0 then some s!"{s}:{c}:{l}" else none
-          | none => none
-        "ok " ++ (if ent.isEmpty then "-" else ",".intercalate ent)
+      match Table.build bits (hexToBytes vals).toArray with
+      | .ok _ => "ok"
       | .err => "err"
       | .panic => "panic"
     | none => "bad-op"
-  | ["jll-hdec", bits, vals, hx, k] =>
+  | ["jll-canon", bits, vals] =>        -- BuildHuffmanCodes (independent of Build)
+    some <| match natsCsv? bits with
+    | some bits =>
+      let values := (hexToBytes vals).toArray
+      let cs := buildHuffmanCodes bits values
+      let ent := (List.range 256).filterMap fun s =>
+        match cs[s]? with
+        | some (c, l) => if l > 0 then some s!"{s}:{c}:{l}" else none
+        | none => none
+      "ok " ++ (if ent.isEmpty then "-" else ",".intercalate ent)
+    | none => "bad-op"
+  | ["jll-hdec", bits, vals, hx, k] =>  -- BuildStandardHuffmanTable (Build error dropped) + k × Decode
     some <| match natsCsv? bits, k.toNat? with
     | some bits, some k =>
-      let values := (hexToBytes vals).toArray
-      match Table.build bits values with
-      | .ok t =>
-        match decodeSeq t { data := hexToBytes hx } k [] with
-        | .ok ss => "ok " ++ natsToStr ss
-        | .err => "err"
-        | .panic => "panic"
+      let t := Table.buildStandard bits (hexToBytes vals).toArray
+      match decodeSeq t { data := hexToBytes hx } k [] with
+      | .ok ss => "ok " ++ natsToStr ss
       | .err => "err"
       | .panic => "panic"
     | _, _ => "bad-op"
